@@ -28,8 +28,8 @@ P = {
   note="Trusted: Coq kernel; model tied by correspondence (coordinate multisets, incl. real grids); level arithmetic read back through the verif hook; floats outside the theorems.",
   tech=TECH + " (tie G2 + CLI glue + H) + exact-rational oracle on built-in tile matrix sets", ref="DESIGN.md 6 C03"),
  "C04": dict(
-  text="Clause 1 FULL (C04_clause1_vertex_provenance: every output vertex is the centre of the pixel of an input vertex, through routing, spike removal, splitting, dedupe, matching). Clause 2 FULL for routed edges (every point between two centres of a routed chain is within half a pixel, Chebyshev, of the source edge) and REFUTED in general (C04_refuted, finding F5, valid-polygon witness replayed on the implementation). Clause 3 (coverage) is not a theorem: decided by exact search (even-odd coverage at sample locations, hole-in-shell test) on the implementation; correspondence on ring nesting and points.",
-  note="Trusted: as C01. Search is not proof for clause 3 and for clause 2 beyond routed edges. Known finding F5 attributed by mechanism.",
+  text="Clause 1 FULL (C04_clause1_vertex_provenance: every output vertex is the centre of the pixel of an input vertex, through routing, spike removal, splitting, dedupe, matching). Clause 2 FULL for routed edges (every point between two centres of a routed chain is within half a pixel, Chebyshev, of the source edge), FULL END TO END ON THE CLASS OF C18 (C04_clause2_on_class: for snapPolygon, every requested level and configuration, when no routed-and-cleaned ring visits a pixel centre at three positions, every point of every cyclic edge of every returned ring is within half a pixel of a point of an input edge; composition of the C18 end-to-end edge theorem with the routed-chain theorem, routing premise discharged from C02) and REFUTED beyond the class (C04_refuted, finding F5, valid-polygon witness replayed on the implementation). Clause 3 (coverage) is not a theorem: decided by exact search (even-odd coverage at sample locations, hole-in-shell test) on the implementation; correspondence on ring nesting and points.",
+  note="Trusted: as C01. Search is not proof for clause 3 and for clause 2 outside the class of C18. Known finding F5 attributed by mechanism.",
   tech=TECH + " (tie H + G2); exact-arithmetic search for clauses 2 (general) and 3", ref="DESIGN.md 6 C04"),
  "C18": dict(
   text="Partial (nesting clause is search only). Theorems for all inputs: splitRing conserves directed edges and signed area (up to the documented whole-ring reversal), dedupeInnersOuters deletes only cancelling shell/hole pairs, per-level assembly conserves edges modulo such pairs, kmpDeduplicate returns a subsequence, is the identity on repeat-free chains, and ON THE CLASS OF THE PROPERTY (no centre at three positions) never fails and conserves directed edges modulo cancelling pairs (C18_kmp_conserves_le2, every ring, any length); the class boundary is real (F5 at four visits). END TO END on the class, for snapLevel and every requested level of snapPolygon, all flag combinations (C18_end_to_end_edges, C18_snapPolygon_edges_are_routed_steps, C18_end_to_end_area, C18_snapPolygon_area): every cyclic edge of every returned ring is, up to direction, an edge of a routed-and-cleaned ring (the argument of kmpDeduplicate) and hence a step between consecutive centres of one routed edge (no run is merged); the doubled signed area of the returned geometry is the sum over the input rings of the area of their routed-and-cleaned rings, a ring counting negatively only under the documented whole-ring role swap and a hole that found no shell being returned as a shell; the plain equation is refuted for invalid input rings (C18_end_to_end_area_plain_refuted), and for valid polygons it additionally needs topology preservation (C01), which stays search only. Oracle on the implementation: routed-run test, nesting, exact signed-area accounting, class decided by the implementation's own routing.",
